@@ -275,3 +275,73 @@ Theorem C01_compile_correct_cf_example :
   fst (run_x86 10 2000 exc_named_code [10]) = ([], OExit 55).
 Proof. exact exc_named_hypotheses. Qed.
 Print Assumptions C01_compile_correct_cf_example.
+
+
+(* ================= every link discharged: no stage hypothesis left (worker sim86b) ================= *)
+
+(* The composition of C01_compile_correct_middle_discharged with the x86-64 link DISCHARGED for all statement forms
+   (Props/C06.v: C06_codegen_correct_linearized_partial; heap statements included: data, closures with captured
+   variables).  No H_... hypothesis.  What is left are guards on the programs the statement names:
+     the boolean guards of the four middle theorems (as in C01_compile_correct_middle_discharged);
+     entry_ext (linearize a)    the entry definition takes integers (the arguments of asm_main);
+     plain_names / plain_types  no definition or type of the linearized program is named '#...';
+     asm_wf cs = None           labels of the emitted code unique (C14; evaluated on the real output on every run);
+     code_small cs              the emitted code is smaller than 2^62 - 2^30 bytes;
+     heap_fits (linearize a) args    NOT a boolean on the program - a bound along the run: every configuration the
+                                heap-instrumented linear machine reaches from args has frontier + 64 <= HEAP_BASE +
+                                HEAP_SIZE (the 32 MiB heap region of the ISA model; the source semantics has no
+                                memory bound and the generated code does not check).  Decided along a terminating
+                                run by `fits_run` (C06_heap_fits_decided).
+   `_partial` because of these guards (every one evaluated on the five example programs below). *)
+From SCC Require Import Proof.X86HSimTop Proof.X86HSimExample Proof.ComposeFull.
+From SCC Require Proof.AxHeapTyping.
+Theorem C01_compile_correct_all_links_partial :
+  forall (p : fcprog) (c : cprog) (f : fsprog) (a : prog) (cs : list xcode) (nargs : nat) (lc lc' : N)
+         (args : list Z) (n : nat) (o : obs),
+    NoDup (map fdname (fcpdefs p)) -> prog_guard p = true ->
+    compile_prog p = Fun2Core.Ok c ->
+    pre_check c = true -> focus_wf c = true -> cs_prog c = true -> static_ok c = true ->
+    focus_prog c = Backend.Ok f ->
+    frag2_prog f = true -> decls_ok f = true -> wt_fs f = true -> unique_binders f = true -> ids_bounded f = true ->
+    shrink_prog f = SOk a ->
+    prog_ok a = true ->
+    x86_compile (linearize a) lc = Backend.Ok (cs, nargs, lc') ->
+    AxHeapTyping.entry_ext (linearize a) = true -> plain_names (linearize a) = true -> plain_types (linearize a) = true ->
+    asm_wf cs = None -> code_small cs = true ->
+    heap_fits (linearize a) args ->
+    run_fun n p args = o -> out_ok o ->
+    (exists outer inner, fst (run_x86 outer inner cs args) = o) /\
+    (Forall (fun pz => in_i64 (snd pz)) (fst o) ->
+     bytes_of_string (render_prints (fst o)) = flat_map runtime_bytes (fst o)).
+Proof. exact compile_correct_full. Qed.
+Print Assumptions C01_compile_correct_all_links_partial.
+
+(* the same with every guard EXECUTABLE (`all_guards`: the list `pipeline_guards` of the middle theorems, the
+   checks of the x86-64 link on the model's stage outputs, and `fits_run fuel` for the heap bound): for a source
+   program with distinct definition names that passes them, every source run ending with a result is reproduced by
+   the emitted x86-64 code on the ISA model *)
+Theorem C01_compile_correct_checked :
+  forall (p : fcprog) (args : list Z) (fuel n : nat) (o : obs),
+    NoDup (map fdname (fcpdefs p)) -> all_guards p args fuel = true ->
+    run_fun n p args = o -> out_ok o ->
+    exists c f a cs nargs lc',
+      pipeline_stages p = Some (c, f, a) /\ x86_compile (linearize a) 0 = Backend.Ok (cs, nargs, lc') /\
+      exists outer inner, fst (run_x86 outer inner cs args) = o.
+Proof. exact compile_correct_checked. Qed.
+Print Assumptions C01_compile_correct_checked.
+
+(* non-vacuity: the five example programs of Proof/Fun2CoreExamples.v satisfy ALL guards (middle theorems, x86-64
+   link, heap bound for the given argument) *)
+Theorem C01_all_links_nonvacuous :
+  all_guards ex_calls [5] 5000 = true /\ all_guards ex_shared [5] 5000 = true /\ all_guards ex_data [6] 5000 = true /\
+  all_guards ex_labels [5] 5000 = true /\ all_guards ex_codata [4] 5000 = true.
+Proof. exact all_guards_examples. Qed.
+Print Assumptions C01_all_links_nonvacuous.
+
+(* and the theorem applied to the list program: the source run's observation is an observation of the emitted code *)
+Theorem C01_all_links_instance :
+  exists c f a cs nargs lc',
+    pipeline_stages ex_data = Some (c, f, a) /\ x86_compile (linearize a) 0 = Backend.Ok (cs, nargs, lc') /\
+    exists outer inner, fst (run_x86 outer inner cs [6]) = ([(true, 21); (true, 36)], OExit 0).
+Proof. exact compile_correct_full_instance. Qed.
+Print Assumptions C01_all_links_instance.
